@@ -423,6 +423,10 @@ func genTxn(prop string, tier string, seed int64, scriptedQ, scriptedT, concQ, c
 			}
 			c.N["steps"] = int64(30 + r.Intn(600))
 		}
+		if c.S["family"] == "random" && i%5 == 4 {
+			c.S["family"] = "reopen-reader"
+			c.N["steps"] = int64(40 + r.Intn(200))
+		}
 		if i < 2 {
 			c.N["sample"] = 1
 		}
